@@ -483,3 +483,145 @@ func errorTestedBeforeValue(c *Ctx, rule string, gen bool, pkgs ...string) {
 		c.R.Fail("%s: no nil test of a (value, error) result found", rule)
 	}
 }
+
+// noReentrantLock: a method that holds its receiver's mutex does not call another method of the same receiver that takes it
+// again (sync.Mutex is not re-entrant: the second Lock blocks for ever).
+func noReentrantLock(c *Ctx, rule string, pkgs ...string) {
+	c.R.Rule(rule, "in "+strings.Join(shortPkgs(pkgs), ", ")+": while a function holds x.mu (a deferred unlock keeps it to the end) it does not call a method on the same x that locks x.mu again", 1)
+	// methods that lock a mutex field of their receiver: function -> field name
+	locksOwn := map[*ssa.Function]string{}
+	fns := c.moduleFuncs(inPkgs(pkgs))
+	for _, fn := range fns {
+		if fn.Signature.Recv() == nil || len(fn.Params) == 0 {
+			continue
+		}
+		for _, b := range fn.Blocks {
+			for _, in := range b.Instrs {
+				if addr, lock, _, deferred := an.LockOp(in); addr != nil && lock && !deferred {
+					if fa, ok := addr.(*ssa.FieldAddr); ok && an.Strip(fa.X) == ssa.Value(fn.Params[0]) {
+						locksOwn[fn] = fieldNameOf(fa)
+					}
+				}
+			}
+		}
+	}
+	n := 0
+	for _, fn := range fns {
+		if fn.Signature.Recv() == nil || len(fn.Params) == 0 {
+			continue
+		}
+		recv := fn.Params[0]
+		// is the receiver's mutex held to the end (deferred unlock) or at a call?
+		ls := an.Locksets(fn)
+		for _, b := range fn.Blocks {
+			for _, in := range b.Instrs {
+				call, ok := in.(*ssa.Call)
+				if !ok {
+					continue
+				}
+				sc := call.Call.StaticCallee()
+				fld, locks := locksOwn[sc]
+				if sc == nil || !locks || len(call.Call.Args) == 0 || an.Strip(call.Call.Args[0]) != ssa.Value(recv) {
+					continue
+				}
+				n++
+				held := false
+				for k := range ls[in] {
+					if strings.HasSuffix(k, "."+fld) {
+						held = true
+					}
+				}
+				c.R.Check(!held, c.fnKey(fn)+"→"+sc.Name()+"/"+fld, c.ipos(in), "the mutex is not held at this call", "the function still holds "+fld+" (its unlock is deferred) when it calls "+sc.Name()+", which locks the same mutex of the same receiver: sync.Mutex is not re-entrant, the call blocks for ever")
+			}
+		}
+	}
+	if n == 0 {
+		c.R.Note(rule+"/examined", "-", "no call from a locking method to another locking method of the same receiver")
+		c.R.SetFloor(0)
+	}
+}
+
+// oneShotIsOneShot: graphql.OneShot's handler answers once.
+func oneShotIsOneShot(c *Ctx) {
+	c.R.Rule("oneshot-is-oneshot", "graphql.OneShot: the flag that makes the handler answer nil from the second call on is a variable of OneShot itself (shared by all calls of the handler), and the handler sets it to true on the path that returns the response", 1)
+	fn := c.fn(pkgGraphql, "OneShot")
+	if fn == nil {
+		return
+	}
+	ok := false
+	for _, cl := range fn.AnonFuncs {
+		for _, b := range cl.Blocks {
+			for _, in := range b.Instrs {
+				st, isS := in.(*ssa.Store)
+				if !isS {
+					continue
+				}
+				k, isC := st.Val.(*ssa.Const)
+				if !isC || k.Value == nil || k.Value.String() != "true" {
+					continue
+				}
+				if _, isFV := st.Addr.(*ssa.FreeVar); isFV {
+					ok = true // a variable of the enclosing function
+				}
+			}
+		}
+	}
+	c.R.Check(ok, "OneShot/flag", c.pos(fn.Pos()), "the handler sets a flag of OneShot", "the handler never records, in a variable that survives the call, that it has answered: it hands out the same response on every call — transports loop on it for ever (an error raised while a subscription is set up is streamed endlessly)")
+}
+
+// addCountsSpawnedLoop: WaitGroup.Add(len(X)) before a loop that starts one goroutine per element ranges over that same X.
+func addCountsSpawnedLoop(c *Ctx, rule string, gen bool, pkgs ...string) {
+	c.R.Rule(rule, "where a WaitGroup is Add-ed len(X) before a loop that starts a goroutine per iteration, the loop ranges over that same X (Add(len(other)) makes Wait hang or return early)", 1)
+	n := 0
+	for _, fn := range c.scopeFuncs(pkgs, gen) {
+		for _, call := range an.CallsIn(fn, func(_ ssa.CallInstruction, ci an.CalleeInfo) bool { return ci.FullName() == "(*sync.WaitGroup).Add" }) {
+			if call.Parent() != fn {
+				continue
+			}
+			lenCall, ok := an.Strip(call.Common().Args[1]).(*ssa.Call)
+			if !ok {
+				continue
+			}
+			bi, ok := lenCall.Call.Value.(*ssa.Builtin)
+			if !ok || bi.Name() != "len" {
+				continue
+			}
+			counted := lenCall.Call.Args[0]
+			// the loop after the Add that contains a go statement
+			for _, l := range an.Loops(fn) {
+				spawns := false
+				for b := range l.Blocks {
+					for _, in := range b.Instrs {
+						if _, isGo := in.(*ssa.Go); isGo {
+							spawns = true
+						}
+					}
+				}
+				if !spawns || !an.CanReach(call, l.Header.Instrs[0]) || l.Blocks[call.Block()] {
+					continue
+				}
+				var ranged ssa.Value
+				for b := range l.Blocks {
+					for _, in := range b.Instrs {
+						if nx, ok := in.(*ssa.Next); ok {
+							if rg, ok := nx.Iter.(*ssa.Range); ok {
+								ranged = rg.X
+							}
+						}
+					}
+				}
+				if ir, ok := an.LoopIndexRange(l); ok && ranged == nil {
+					ranged = ir.Of
+				}
+				if ranged == nil {
+					continue
+				}
+				n++
+				c.R.Check(sameAccess(ranged, counted, 0), c.fnKey(fn)+"/add-counts-loop", c.ipos(call), "Add counts the collection the spawning loop walks", "the WaitGroup is Add-ed the length of one collection while the loop that starts the goroutines walks another: when the two lengths differ Wait never returns (or returns before the goroutines finished)")
+			}
+		}
+	}
+	if n == 0 {
+		c.R.Fail("%s: no Add(len(X)) before a spawning loop found", rule)
+	}
+}
